@@ -38,6 +38,11 @@ func (p *C12) Runs(tier string) int {
 const inPath = "/sim/in.txt"
 const outPath = "/sim/out.bin"
 
+// oddNames: file names with characters that mean something to a shell, to
+// environment expansion, to globbing, to URL or printf-style decoding.
+var oddNames = []string{"/sim/in$1.yml", "/sim/price-5$USD.txt", "/sim/${HOME}.txt", "/sim/my piece.txt", "/sim/~in.txt", "/sim/in%20x%s.yml",
+	"/sim/piece[1].txt", "/sim/päce ♯.txt", "/sim/in*.txt", "/sim/in?.txt", "/sim/a#b.txt", "/sim/in.txt;x", "/sim/in\\x.txt", "/sim/{a,b}.txt", "/sim/-in.txt", "/sim/in.txt ", "/sim/C:in.txt", "/sim/in'q\".txt"}
+
 func (p *C12) Generate(seed uint64, run int) *Case {
 	r := model.NewRand(seed, fmt.Sprintf("C12/%d", run))
 	var b Base
@@ -218,6 +223,9 @@ func (p *C12) Generate(seed uint64, run int) *Case {
 			path := inPath
 			if _, rel := c.HasLabel("relative-dictionary"); rel {
 				path = "/sim/piece/in.yml"
+			} else if r.Chance(1, 3) {
+				// a file name is a name, whatever characters it has
+				path = model.Pick(r, oddNames)
 			}
 			st.Argv = append(st.Argv, path)
 			if st.Files == nil {
@@ -251,6 +259,13 @@ func (p *C12) Generate(seed uint64, run int) *Case {
 			}
 			st.Files[inPath] = &simrt.FileSpec{Data: st.Stdin.Data, Plan: pl, Pipe: true}
 			st.Stdin = nil
+		})
+	}
+	if r.Chance(1, 4) {
+		add("outpath:odd-name", func(st *Step) {
+			st.Argv = append(st.Argv, "-o", strings.Replace(model.Pick(r, oddNames), "/sim/", "/sim/out/", 1))
+			st.Files = cloneFiles(st.Files)
+			st.Files["/sim/out/.keep"] = &simrt.FileSpec{Data: []byte{}}
 		})
 	}
 	add("outpath", func(st *Step) {
@@ -371,6 +386,23 @@ func padInput(r *model.Rand, b Base, w Workload, size int) Base {
 // inside a token: that is C09/C04's subject).
 func breakInput(r *model.Rand, b *Base) []byte {
 	s := string(b.Input)
+	if len(s) > 2 && r.Chance(1, 3) {
+		// the input simply stops (the upstream died): inside a token, inside a
+		// quoted scalar, between two items; what is left may or may not be valid
+		if b.Class == "doc" && r.Chance(1, 2) {
+			var quotes []int
+			for i := 0; i < len(s); i++ {
+				if s[i] == '"' {
+					quotes = append(quotes, i)
+				}
+			}
+			if len(quotes) >= 2 {
+				q := quotes[2*r.Intn(len(quotes)/2)] // an opening quote
+				return []byte(s[:q+1+r.Intn(2)])
+			}
+		}
+		return faultTruncate(r, b.Input, b.Class)
+	}
 	if b.Class == "text" {
 		switch r.Intn(5) {
 		case 0:
